@@ -24,7 +24,7 @@ SCHEMA = {
     "VLoss": ("vloss", {"vdrop": [0.3, 1, T1("vdrop", [0.1, 0.2, 0.3]), T2("vdrop", [[0.1, 0.2, 0.3], [0.15, 0.25, 0.35]]), 0.0]}, {"rt": [5.0, 0.0]}),
     "Converter": ("converter", {"vo": [3.3, 3, -3.3], "eff": [0.85, T1("eff", [0.6, 0.8, 0.9]), T2("eff", [[0.6, 0.8, 0.9], [0.5, 0.7, 0.8]]), 1.0]},
                   {"iq": [1e-3, 0.35e-9, 0.0], "iis": [1e-4, 0.0], "rt": [5.0, 7, 0.0]}),
-    "LinReg": ("linreg", {"vo": [3.3, 3]}, {"vdrop": [0.4, 0.0], "ig": IG_T + [0.0], "iq": [1.5e-3], "iis": [1e-4, 0.45e-9, 0.0], "rt": [5.0, 0.0]}),
+    "LinReg": ("linreg", {"vo": [3.3, 3]}, {"vdrop": [0.4, 0.0], "ig": IG_T + [0.0], "iq": [1.5e-3, 5.0e-9, -2.0e-9], "iis": [1e-4, 0.45e-9, 0.0], "rt": [5.0, 0.0]}),
     "PSwitch": ("pswitch", {}, {"rs": [0.2, 1, 0.0], "ig": IG_T + [0.0], "iis": [1e-4, 0.0], "rt": [5.0, 0.0]}),
     "PMux": ("pmux", {}, {"rs": [0.2, [0.2, 0.3], 1, 0.0], "ig": IG_T + [0.0], "iis": [1e-4, 0.0], "rt": [5.0, 0.0]}),
     "Rectifier": ("rectifier", {"vdrop": [0.0, 0.3, 0, T1("vdrop", [0.1, 0.2, 0.3])]}, {"rs": [0.2, 0.0], "ig": IG_T + [0.0], "iq": [1e-4, 0.0], "rt": [5.0, 0.0]}),
